@@ -4,20 +4,108 @@
 package vt
 
 import (
+	"regexp"
+	"runtime"
+	"strings"
+	"sync/atomic"
 	"testing"
 	"testing/synctest"
+	"time"
 
 	"github.com/brewlin/net-protocol/pkg/sleep"
 )
 
 const Virtual = true
 
+var progress int64
+
+// OnBusy is called (from outside the bubble) when the bubble has not reached quiescence
+// for two minutes of real time and the same goroutine was found running in the same
+// repository function in two goroutine dumps five seconds apart: the code under test
+// spins. fn is that function, frame its file:line, dump the second goroutine dump.
+var OnBusy func(fn, frame, dump string)
+
+var goroutineRe = regexp.MustCompile(`^goroutine (\d+) [^\[]*\[(running|runnable)`)
+
+// busy returns goroutine id -> (function, file:line) of the innermost repository frame of
+// every goroutine that is running or runnable.
+func busy(dump string) map[string][2]string {
+	out := map[string][2]string{}
+	for _, blk := range strings.Split(dump, "\n\n") {
+		lines := strings.Split(blk, "\n")
+		m := goroutineRe.FindStringSubmatch(lines[0])
+		if m == nil {
+			continue
+		}
+		for i := 1; i+1 < len(lines); i += 2 {
+			file := strings.TrimSpace(lines[i+1])
+			if strings.HasPrefix(file, "/repo/") {
+				fn := lines[i]
+				if j := strings.LastIndex(fn, "("); j > 0 {
+					fn = fn[:j]
+				}
+				if j := strings.Index(file, " "); j > 0 {
+					file = file[:j]
+				}
+				out[m[1]] = [2]string{fn, file}
+				break
+			}
+			if !strings.Contains(file, "/src/runtime/") {
+				break // innermost non-runtime frame is not repository code
+			}
+		}
+	}
+	return out
+}
+
+func monitor() {
+	last, still := int64(-1), 0
+	for {
+		time.Sleep(10 * time.Second)
+		p := atomic.LoadInt64(&progress)
+		if p != last {
+			last, still = p, 0
+			continue
+		}
+		if still++; still < 12 {
+			continue
+		}
+		stacks := func() string {
+			buf := make([]byte, 32<<20)
+			return string(buf[:runtime.Stack(buf, true)])
+		}
+		a := busy(stacks())
+		time.Sleep(5 * time.Second)
+		d2 := stacks()
+		b := busy(d2)
+		if atomic.LoadInt64(&progress) != last {
+			last, still = -1, 0
+			continue
+		}
+		for id, x := range a {
+			if y, ok := b[id]; ok && x[0] == y[0] && OnBusy != nil {
+				OnBusy(x[0], y[1], d2)
+				return
+			}
+		}
+		still = 0
+	}
+}
+
 // Bubble runs f in a bubble. f must end the process itself (os.Exit) if it
 // leaves goroutines behind - the stack's goroutines never exit.
 func Bubble(t *testing.T, f func()) {
 	sleep.VerifWaitReason = 14 // waitReasonSleep on go1.26.8: counted as idle by synctest
+	go monitor()
 	synctest.Test(t, func(t *testing.T) { f() })
 }
 
 // Quiesce waits until every goroutine in the bubble is durably blocked.
-func Quiesce() { synctest.Wait() }
+func Quiesce() {
+	synctest.Wait()
+	atomic.AddInt64(&progress, 1)
+}
+
+// Tick tells the busy-loop monitor that the harness saw activity (a frame emitted or
+// delivered, a step finished).
+func Tick() { atomic.AddInt64(&progress, 1) }
